@@ -875,11 +875,11 @@ def phase_flatjoin(ctx, phase):
     return None
 
 
-def _tlapm(d, timeout=600):
+def _tlapm(d, timeout=900, stretch=1, threads=8):
     import re
     import subprocess
 
-    p = subprocess.run(["tlapm", "--threads", "8", "--cleanfp", "Proofs.tla"], cwd=d, capture_output=True, text=True, timeout=timeout)
+    p = subprocess.run(["tlapm", "--threads", str(threads), "--stretch", str(stretch), "--cleanfp", "Proofs.tla"], cwd=d, capture_output=True, text=True, timeout=timeout)
     out = p.stdout + p.stderr
     m = re.search(r"All (\d+) obligations? proved", out)
     f = re.search(r"(\d+)/(\d+) obligations failed", out)
@@ -899,6 +899,12 @@ def phase_proofs(ctx, phase):
     for f in ("ValuesCore.tla", "Proofs.tla"):
         shutil.copy(os.path.join(tlc.SPEC, f), d)
     r = _tlapm(d)
+    attempts = 1
+    while (r["proved"] is None or r["failed"]) and attempts < 3:
+        # a back-end time limit hit on a loaded machine is not a regression of the specification: try again with longer limits
+        attempts += 1
+        shutil.rmtree(os.path.join(d, ".tlacache"), ignore_errors=True)
+        r = _tlapm(d, stretch=3 * (attempts - 1), threads=4)
     if r["proved"] is None or r["failed"]:
         raise tlc.TlcError("TLAPS: the proofs of spec/Proofs.tla no longer go through (specification regression):\n" + r["out"][-3000:])
     text = open(os.path.join(d, "Proofs.tla")).read()
@@ -915,7 +921,7 @@ def phase_proofs(ctx, phase):
         if not r2["failed"]:
             raise tlc.TlcError("TLAPS canary: a wrong definition of `//` (no sign rule) was still proved:\n" + r2["out"][-2000:])
         canary = dict(mutation="TDivI without the sign rule", obligations_failed=r2["failed"])
-    ctx.extra["tlaps"] = dict(module="Proofs.tla over ValuesCore.tla", obligations_proved=r["proved"], theorems=theorems,
+    ctx.extra["tlaps"] = dict(module="Proofs.tla over ValuesCore.tla", obligations_proved=r["proved"], theorems=theorems, attempts=attempts,
                               canary=canary, wall=round(_t.time() - t0, 1),
                               note="unbounded (all integers / naturals); the same definitions are the ones TLC evaluates in every model")
     ctx.tlc_runs.append(dict(profile="tlaps-proofs", states=0, distinct=0, obligations=r["proved"], wall=round(_t.time() - t0, 1), mode="TLAPS (SMT back end)"))
@@ -1264,6 +1270,7 @@ def _argspace_exec(args):
                         lt, rt = pdt.Table(frames[("l", tuple(c["l"]))]), pdt.Table(frames[("r", tuple(c["r"]))])
                     on = ("k" if c["on"] == "str" else (lt.k == rt.k) if c["on"] == "eq" else (lt.k <= rt.k) if c["on"] == "le"
                           else [lt.k == rt.k, lt.lid == lt.k] if c["on"] == "eqleft" else [lt.k == rt.k, rt.rid == rt.k] if c["on"] == "eqright"
+                          else [pdt.lit(2) == rt.k, lt.k == rt.k] if c["on"] == "eqlit" else (rt.k == 2) if c["on"] == "rlit"
                           else (lt.k == rt.k) & (lt.lid <= rt.rid))
                     fm = c.get("form", "and")
                     if fm == "list":
@@ -1420,6 +1427,20 @@ def _lca_exec(cfgs):
         rec["outs"] = uniq([outcome(lambda p=p: types.lca_type(list(p))) for p in perms])
         rec["withnull"] = uniq([outcome(lambda p=p, i=i: types.lca_type(list(p[:i]) + [null] + list(p[i:]))) for p in perms for i in range(len(p) + 1)])
         rec["cases"] = uniq([outcome(lambda p=p: case_type(p)) for p in perms])
+        rec["caseconst"] = []
+        if len(ts) == 1 and not isinstance(ts[0], types.NullType):
+            from pydiverse.transform._internal.tree.col_expr import LiteralCol
+
+            def is_c(cond, val):
+                try:
+                    return bool(types.is_const(CaseExpr([(cond, val)]).dtype()))
+                except Exception:  # noqa: BLE001
+                    return None
+
+            cc, cl = col(pdt.Bool()), LiteralCol(True)
+            vc, vl = col(ts[0]), LiteralCol(None, dtype=ts[0])
+            obs = [is_c(cc, vl), is_c(cl, vl), is_c(cl, vc)]
+            rec["caseconst"] = obs if None not in obs else []
         rec["unions"] = []
         if len(ts) == 2:
             fl, fr = frame(ts[0]), frame(ts[1])
@@ -1453,7 +1474,7 @@ def phase_lca(ctx, phase):
     recs = [r for fu in futs for r in fu.result()]
     path = os.path.join(d, "lca.ndjson")
     # binding demonstration: a record whose outcome is replaced by a type no argument converts to must be rejected
-    canary = next((dict(r, outs=[["type", "Duration"]], withnull=[["type", "Duration"]], cases=[], unions=[]) for r in recs
+    canary = next((dict(r, outs=[["type", "Duration"]], withnull=[["type", "Duration"]], cases=[], unions=[], caseconst=[]) for r in recs
                    if r["outs"] == [["type", "Int"]]), None)
     with open(path, "w") as f:
         for r in recs + ([canary] if canary else []):
@@ -1482,6 +1503,130 @@ def phase_lca(ctx, phase):
     ctx.replay_stats["steps_new"] = ctx.replay_stats.get("steps_new", 0) + len(recs)
     ctx.replay_stats["nontrivial"] = ctx.replay_stats.get("nontrivial", 0) + len(recs)
     ctx.tlc_runs.append(dict(profile="lca", states=0, distinct=0, configurations=len(cfgs), mode="TLC enumerates argument multisets, then judges the recorded outcomes"))
+    return d
+
+
+def _msboolbit_exec(recs):
+    """worker: the real convert_bool_bit on the expression of every record, matched node by node against the transcription's tree;
+    mutate(x = e) / filter(e) compiled on the SQL Server dialect"""
+    import uuid as _uuid
+
+    import pydiverse.transform as pdt
+    from pydiverse.transform import build_query, filter, mutate
+    from pydiverse.transform._internal.backend.mssql import convert_bool_bit
+    from pydiverse.transform._internal.ops import ops
+    from pydiverse.transform._internal.ops.op import Ftype
+    from pydiverse.transform._internal.tree.col_expr import CaseExpr, Cast, Col, ColFn, LiteralCol
+
+    from . import dialects as D
+
+    D.install_stubs()
+    tbl = pdt.Table(D.sqa_table("t", [("a", "int"), ("b", "bool")]), pdt.SqlAlchemy(D.engines()["mssql"]))
+    OPS = {"and": ops.bool_and, "or": ops.bool_or, "xor": ops.bool_xor, "not": ops.bool_invert, "hany": ops.horizontal_any, "eq": ops.equal,
+           "gt": ops.greater_than, "is_null": ops.is_null, "is_in": ops.is_in, "fill_null": ops.fill_null, "add": ops.add, "any": ops.any, "sum": ops.sum}
+
+    def build(e):
+        k = e["k"]
+        if k == "col":
+            return tbl.b if e["ty"] == "bool" else tbl.a
+        if k == "lit":
+            return LiteralCol(True) if e["ty"] == "bool" else LiteralCol(1)
+        if k == "fn":
+            return ColFn(OPS[e["op"]], *[build(x) for x in e["a"]])
+        if k == "case":
+            return CaseExpr([(build(e["a"][0]), build(e["a"][1]))], build(e["a"][2]))
+        if k == "cast":
+            return Cast(build(e["a"][0]), pdt.Int64())
+        raise ValueError(k)
+
+    def match(m, r):
+        """does the real tree r have the shape of the transcription's tree m?"""
+        k = m["k"]
+        if k == "col":
+            return isinstance(r, Col)
+        if k == "lit":
+            return isinstance(r, LiteralCol)
+        if k == "eqtrue":
+            return isinstance(r, ColFn) and r.op == ops.equal and len(r.args) == 2 and isinstance(r.args[1], LiteralCol) and r.args[1].val is True \
+                and match(m["a"][0], r.args[0])
+        if k == "casebit":
+            return (isinstance(r, CaseExpr) and r.default_val is None and len(r.cases) == 2
+                    and isinstance(r.cases[0][1], LiteralCol) and r.cases[0][1].val is True and isinstance(r.cases[1][1], LiteralCol) and r.cases[1][1].val is False
+                    and match(m["a"][0], r.cases[0][0])
+                    and isinstance(r.cases[1][0], ColFn) and r.cases[1][0].op == ops.bool_invert and match(m["a"][0], r.cases[1][0].args[0]))
+        if k == "fn":
+            return isinstance(r, ColFn) and r.op == OPS[m["op"]] and len(r.args) == len(m["a"]) and all(match(x, y) for x, y in zip(m["a"], r.args))
+        if k == "case":
+            return (isinstance(r, CaseExpr) and len(r.cases) == 1 and r.default_val is not None and match(m["a"][0], r.cases[0][0])
+                    and match(m["a"][1], r.cases[0][1]) and match(m["a"][2], r.default_val))
+        if k == "cast":
+            return isinstance(r, Cast) and match(m["a"][0], r.val)
+        return False
+
+    out = []
+    for rec in recs:
+        res = dict(agree=False, err="", build="")
+        try:
+            e = build(rec["e"])
+            e.dtype()
+            res["agree"] = bool(match(rec["conv"], convert_bool_bit(e, rec["want"])))
+        except Exception as ex:  # noqa: BLE001
+            res["err"] = f"{type(ex).__name__}: {str(ex)[:120]}"
+        try:
+            if rec["want"] == "bit":
+                q = tbl >> mutate(x__=build(rec["e"])) >> build_query()
+            elif rec["e"]["ty"] == "bool" and not _has_agg(rec["e"]):
+                q = tbl >> filter(build(rec["e"])) >> build_query()
+            else:
+                q = "SELECT"
+            if not str(q).lstrip().upper().startswith("SELECT"):
+                res["build"] = "no SELECT"
+        except Exception as ex:  # noqa: BLE001
+            if type(ex).__name__ not in ("NotSupportedError", "SubqueryError", "FunctionTypeError", "DataTypeError"):
+                res["build"] = f"{type(ex).__name__}: {str(ex)[:160]}"
+        out.append(res)
+    return out
+
+
+def _has_agg(e):
+    return (e["k"] == "fn" and e["op"] in ("any", "sum")) or any(_has_agg(x) for x in e.get("a", []))
+
+
+def phase_msboolbit(ctx, phase):
+    """the SQL Server bool / bit rewrite (MC_MsBoolBit.tla): TLC proves the transcribed rewrite well typed for every expression up to the
+    depth bound; the real convert_bool_bit is matched against the transcription and every expression is compiled on the MSSQL dialect"""
+    depth = phase.get("depth", 1)
+    d = tlc.prepare(f"{ctx.prop}-msboolbit-{os.getpid()}", ctx.seed)
+    with open(os.path.join(d, "Run.tla"), "w") as f:
+        f.write("---- MODULE Run ----\nEXTENDS MC_MsBoolBit\n====\n")
+    with open(os.path.join(d, "Run.cfg"), "w") as f:
+        f.write(f'CONSTANTS\n  Mode = "gen"\n  Depth = {depth}\nINIT Init\nNEXT Next\nCHECK_DEADLOCK FALSE\n')
+    recs = []
+    tlc.run(d, workers=1, timeout=1200, on_json=recs.append)      # a false ASSUME (WellTyped / IdentityWithoutBool) is a TlcError
+    n = 16
+    futs = [ctx.get_pool().submit(_msboolbit_exec, recs[w::n]) for w in range(n)]
+    res = [None] * len(recs)
+    for w, fu in enumerate(futs):
+        for i, r in enumerate(fu.result()):
+            res[w + i * n] = r
+    drift = [i for i, r in enumerate(res) if not r["agree"]]
+    # binding demonstration: an expected tree with its wrapper removed must NOT match what the real function returns
+    wrapped = next((r for r in recs if r["conv"]["k"] in ("eqtrue", "casebit")), None)
+    if wrapped is not None and _msboolbit_exec([dict(wrapped, conv=wrapped["conv"]["a"][0])])[0]["agree"]:
+        raise tlc.TlcError("MC_MsBoolBit canary: a tree without its bool / bit wrapper was accepted as the result of convert_bool_bit")
+    for i, r in enumerate(res):
+        if r["build"]:
+            ctx.failures.append(dict(clause="dialect-internal", backend="mssql", step=0, tainted=False, src=["t"], srcidx=0, exc=r["build"].split(":")[0],
+                                     detail=f"SQL Server: build_query of an expression of the bool / bit model raised {r['build']}",
+                                     moves=[dict(v="mutate" if recs[i]["want"] == "bit" else "filter", i=1)], heap_obs=[], beh=recs[i]))
+    ctx.extra.setdefault("mssql_bool_bit", {})[f"depth={depth}"] = dict(
+        expressions=len(recs) // 2, rewrites_well_typed_in_model=len(recs), real_rewrite_matches_transcription=len(recs) - len(drift), drift=len(drift), canary_rejected=wrapped is not None,
+        drift_examples=[dict(e=recs[i]["e"], want=recs[i]["want"], err=res[i]["err"]) for i in drift[:3]],
+        note="drift is reported, not judged: C19 only requires that build_query succeeds; the typing judgement of the model stands in for a SQL Server")
+    ctx.behaviours += len(recs)
+    ctx.replay_stats["steps_new"] = ctx.replay_stats.get("steps_new", 0) + len(recs)
+    ctx.replay_stats["nontrivial"] = ctx.replay_stats.get("nontrivial", 0) + len(recs)
+    ctx.tlc_runs.append(dict(profile="msboolbit", states=0, distinct=0, configurations=len(recs), mode="TLC checks the rewrite's typing on every expression and emits the expected trees"))
     return d
 
 
